@@ -11,6 +11,7 @@ import (
 	"net"
 	"os"
 	"strconv"
+	"strings"
 	"sync"
 	"testing"
 	"time"
@@ -346,6 +347,16 @@ func TestPropCookieLifecycle(t *testing.T) {
 				sesMu.Unlock()
 			} else if rekeyed != 0 {
 				t.Fatalf("key exchange performed although the pool held %d cookies (pattern %v)", L, pattern)
+			}
+			if len(hops) == 0 && err != nil && p != "ok" && strings.Contains(err.Error(), "i/o timeout") {
+				// under the short deadline of a lossy step the call ran out of time before it sent anything (a stall
+				// of this process): the cookie it took from the pool is gone all the same
+				rec.Label("stalled-before-send")
+				if rekeyed != 0 {
+					return // the stall may have hit the key exchange itself: the pool level is not known any more
+				}
+				L--
+				continue
 			}
 			if len(hops) != 1 {
 				t.Fatalf("expected one request at the relay, saw %d (err %v, pattern %v)", len(hops), err, pattern)
